@@ -33,12 +33,13 @@ type c17KV struct {
 }
 
 type c17N struct {
-	K      string  `json:"k"`           // text out if for partial cfor cof blk
+	K      string  `json:"k"`           // text out if for partial cfor cof blk let
 	S      string  `json:"s,omitempty"` // text | expr | cond | iterable | file name | content name | helper
 	V      string  `json:"v,omitempty"` // loop variable
 	Data   []c17KV `json:"d,omitempty"`
 	NoData bool    `json:"nd,omitempty"` // print the call without a data map
-	Layout string  `json:"l,omitempty"`  // partial: data.layout
+	Layout string  `json:"l,omitempty"`  // partial / let: data.layout
+	DV     string  `json:"dv,omitempty"` // partial / cof: the data map is this variable (a `let` map m<i>, or the Go-side map gd), not a literal
 	HasB   bool    `json:"hb,omitempty"` // if: has else ; cof: has a default block (in A)
 	A      []*c17N `json:"a,omitempty"`
 	B      []*c17N `json:"b,omitempty"`
@@ -53,7 +54,8 @@ type c17File struct {
 }
 
 type c17Case struct {
-	CT    string              `json:"ct"` // "" = contentType unset
+	CT    string              `json:"ct"`           // "" = contentType unset
+	GL    string              `json:"gl,omitempty"` // "layout" entry of the Go-side data map gd ("" = none)
 	Top   []*c17N             `json:"top"`
 	Files map[string]*c17File `json:"files"`
 }
@@ -78,7 +80,8 @@ var c17Globals = []string{"g1", "g2", "g3", "gl", "ge", "gm", "ft", "ff"}
 var c17Universe = []string{
 	"g1", "g2", "g3", "gl", "ge", "gm", "ft", "ff", "d1", "d2", "d3", "d4", "bw", "it1", "it2", "it3", "it4", "it5", "it6", "it7", "it8",
 	"contentType", "yield", "layout",
-	"wrap", "twice", "wrapTag", "wrapWith", "c17inl", "c17of", "c17def", "c17body",
+	"m1", "m2", "m3", "m4", "m5", "m6", "m7", "m8", "gd",
+	"wrap", "twice", "wrapTag", "wrapWith", "wrapOpt", "c17inl", "c17of", "c17def", "c17body",
 	"c17def:c1", "c17def:c2", "c17def:c3", "c17def:c4",
 }
 var c17ContentParams = map[string][]string{"c1": nil, "c2": {"d1"}, "c3": {"d1", "d2"}, "c4": {"d3"}}
@@ -150,6 +153,12 @@ func (p *c17P) hasCFor(name string, seen map[string]bool) bool {
 			if n.K == "partial" && (p.hasCFor(n.S, seen) || (n.Layout != "" && p.hasCFor(n.Layout, seen))) {
 				return true
 			}
+			if n.K == "let" && n.Layout != "" && p.hasCFor(n.Layout, seen) {
+				return true
+			}
+			if n.DV == "gd" && p.c.GL != "" && p.hasCFor(p.c.GL, seen) {
+				return true
+			}
 			if walk(n.A) || walk(n.B) {
 				return true
 			}
@@ -177,7 +186,18 @@ func (p *c17P) print(ns []*c17N) string {
 			sb.WriteString("<% } %>")
 		case "for":
 			sb.WriteString("<%= for (" + n.V + ") in " + n.S + " { %>" + p.print(n.A) + "<% } %>")
+		case "let":
+			// a data map held in a variable: the same map value reaches every composition that names it
+			sb.WriteString("<% let " + n.S + " = " + c17Data(n) + " %>")
 		case "partial":
+			if n.DV != "" {
+				if !p.inline {
+					sb.WriteString(`<%= partial(` + strconv.Quote(n.S) + `, ` + n.DV + `) %>`)
+				} else {
+					sb.WriteString(`<%= c17inl(` + strconv.Quote(n.S) + `, ` + n.DV + `) %>`)
+				}
+				break
+			}
 			bare := n.NoData && n.Layout == ""
 			if !p.inline {
 				if bare {
@@ -208,7 +228,9 @@ func (p *c17P) print(ns []*c17N) string {
 		case "cof":
 			if !p.inline {
 				call := `contentOf(` + strconv.Quote(n.S)
-				if !n.NoData {
+				if n.DV != "" {
+					call += `, ` + n.DV
+				} else if !n.NoData {
 					call += `, ` + c17Data(n)
 				}
 				call += `)`
@@ -224,7 +246,9 @@ func (p *c17P) print(ns []*c17N) string {
 				def = p.id(p.print(n.A))
 			}
 			data := "{}"
-			if !n.NoData {
+			if n.DV != "" {
+				data = n.DV
+			} else if !n.NoData {
 				data = c17Data(n)
 			}
 			sb.WriteString(`<%= c17of(` + strconv.Quote(n.S) + `, ` + strconv.Quote(def) + `, ` + data + `) %>`)
@@ -234,6 +258,10 @@ func (p *c17P) print(ns []*c17N) string {
 				call := n.S + "()"
 				if n.S == "wrapTag" {
 					call = `wrapTag("div")`
+				}
+				if n.S == "wrapOpt" && n.NoData {
+					sb.WriteString(`<%= ` + call + ` %>`) // called without a block
+					break
 				}
 				sb.WriteString(`<%= ` + call + ` { %>` + body + `<% } %>`)
 				break
@@ -245,6 +273,12 @@ func (p *c17P) print(ns []*c17N) string {
 				sb.WriteString(body + "|" + p.print(n.A))
 			case "wrapTag":
 				sb.WriteString("<div>" + body + "</div>")
+			case "wrapOpt":
+				if n.NoData {
+					sb.WriteString("none")
+				} else {
+					sb.WriteString("(" + body + ")")
+				}
 			case "wrapWith":
 				sb.WriteString(`{<%= c17body(` + strconv.Quote(p.id(body)) + `, {bw: "BW"}) %>}`)
 			}
@@ -311,6 +345,7 @@ func c17Run(c *c17Case) (realO, inlO Obs, s c17Sources) {
 	if c.CT != "" {
 		rm["contentType"] = c.CT
 	}
+	rm["gd"] = c17GoMap(c)
 	rm["partialFeeder"] = func(name string) (string, error) {
 		if t, ok := s.realFiles[name]; ok {
 			return t, nil
@@ -333,6 +368,13 @@ func c17Run(c *c17Case) (realO, inlO Obs, s c17Sources) {
 		b, err := h.Block()
 		return template.HTML("<" + tag + ">" + b + "</" + tag + ">"), err
 	}
+	rm["wrapOpt"] = func(h plush.HelperContext) (template.HTML, error) {
+		if !h.HasBlock() {
+			return "none", nil
+		}
+		b, err := h.Block()
+		return template.HTML("(" + b + ")"), err
+	}
 	rm["wrapWith"] = func(h plush.HelperContext) (template.HTML, error) {
 		cc := h.New()
 		cc.Set("bw", "BW")
@@ -346,6 +388,7 @@ func c17Run(c *c17Case) (realO, inlO Obs, s c17Sources) {
 	if c.CT != "" {
 		im["contentType"] = c.CT
 	}
+	im["gd"] = c17GoMap(c)
 	im["c17body"] = func(id string, data map[string]interface{}, h plush.HelperContext) (template.HTML, error) {
 		src, ok := s.bodies[id]
 		if !ok {
@@ -432,8 +475,27 @@ func c17Features(c *c17Case) string {
 	walk = func(ns []*c17N, depth int) {
 		for _, n := range ns {
 			switch n.K {
+			case "let":
+				set["let"] = true
+				if n.Layout != "" {
+					set["layout"] = true
+					if c17JSRule(c.CT, n.Layout) {
+						set["js-escape"] = true
+					}
+				}
 			case "partial":
 				set["partial"] = true
+				if n.DV == "gd" {
+					set["go-map"] = true
+					if c.GL != "" {
+						set["layout"] = true
+						if c17JSRule(c.CT, c.GL) {
+							set["js-escape"] = true
+						}
+					}
+				} else if n.DV != "" {
+					set["data-var"] = true
+				}
 				if len(n.Data) > 0 {
 					set["data"] = true
 				}
@@ -450,6 +512,11 @@ func c17Features(c *c17Case) string {
 				set["contentFor"] = true
 			case "cof":
 				set["contentOf"] = true
+				if n.DV == "gd" {
+					set["go-map"] = true
+				} else if n.DV != "" {
+					set["data-var"] = true
+				}
 				if n.HasB {
 					set["default-block"] = true
 				}
@@ -503,11 +570,25 @@ func c17Lists(c *c17Case) []*[]*c17N {
 
 func c17Prune(c *c17Case) {
 	used := map[string]bool{}
+	usesGD := false
 	var walk func(ns []*c17N)
 	walk = func(ns []*c17N) {
 		for _, n := range ns {
-			if n.K == "partial" {
-				for _, nm := range []string{n.S, n.Layout} {
+			if n.DV == "gd" && !usesGD {
+				usesGD = true
+				if c.GL != "" && !used[c.GL] {
+					used[c.GL] = true
+					if f := c.Files[c.GL]; f != nil {
+						walk(f.Body)
+					}
+				}
+			}
+			if n.K == "partial" || n.K == "let" {
+				names := []string{n.S, n.Layout}
+				if n.K == "let" {
+					names = []string{n.Layout}
+				}
+				for _, nm := range names {
 					if nm != "" && !used[nm] {
 						used[nm] = true
 						if f := c.Files[nm]; f != nil {
@@ -521,6 +602,9 @@ func c17Prune(c *c17Case) {
 		}
 	}
 	walk(c.Top)
+	if !usesGD {
+		c.GL = ""
+	}
 	for n := range c.Files {
 		if !used[n] {
 			delete(c.Files, n)
@@ -562,15 +646,24 @@ func c17Shrink(c *c17Case, shape string) *c17Case {
 				if li >= len(ls) || ni >= len(*ls[li]) {
 					break
 				}
-				for _, op := range []string{"hoist", "nolayout", "nodata", "nodefault"} {
+				for _, op := range []string{"hoist", "nolayout", "nodata", "nodefault", "literal"} {
 					cand := c17Clone(cur)
 					l := c17Lists(cand)[li]
 					n := (*l)[ni]
 					switch {
 					case op == "hoist" && (n.K == "if" || n.K == "blk" || n.K == "for") && len(n.A) > 0:
 						*l = append(append(append([]*c17N{}, (*l)[:ni]...), n.A...), (*l)[ni+1:]...)
-					case op == "nolayout" && n.K == "partial" && n.Layout != "":
+					case op == "nolayout" && (n.K == "partial" || n.K == "let") && n.Layout != "":
 						n.Layout = ""
+					case op == "literal" && n.DV != "" && n.DV != "gd" && c17LetOf(cand, n.DV) != nil:
+						// the variable's map written out as a literal at this use (does the sharing matter?)
+						l := c17LetOf(cand, n.DV)
+						n.DV, n.Data, n.Layout, n.NoData = "", append([]c17KV{}, l.Data...), l.Layout, false
+						if n.K == "cof" {
+							n.Layout = ""
+						} else {
+							n.V = l.V
+						}
 					case op == "nodata" && len(n.Data) > 0:
 						n.Data = nil
 					case op == "nodefault" && n.K == "cof" && n.HasB:
@@ -584,6 +677,14 @@ func c17Shrink(c *c17Case, shape string) *c17Case {
 						break
 					}
 				}
+			}
+		}
+		if cur.GL != "" && budget > 0 {
+			cand := c17Clone(cur)
+			cand.GL = ""
+			budget--
+			if bad(cand) {
+				cur, changed = cand, true
 			}
 		}
 		if cur.CT != "" && budget > 0 {
@@ -605,6 +706,7 @@ type c17G struct {
 	r     *Rng
 	c     *c17Case
 	nfile int
+	nmap  int
 }
 
 var c17Texts = []string{"a", " b ", "<p>", "</p>\n", "it's", `say "hi"`, "x=1;", "&amp;", "\n", "1 < 2", "{", "}", "[", "]", "|", "line\r\n", "/* c */", "</script>"}
@@ -696,6 +798,7 @@ type c17Env struct {
 	defined []string // content names probably defined at this point
 	blocks  int      // block nesting (if/for/blk), to bound size
 	minC    int      // inside the body of contentFor("c<minC>"): contentOf only of later names (no recursion)
+	maps    []c17MV  // data-map variables bound by a `let` earlier in this body or an enclosing one
 }
 
 func (g *c17G) data(params []string, scope []string) []c17KV {
@@ -758,6 +861,14 @@ func (g *c17G) file(level int, layout bool, minC int) string {
 	return name
 }
 
+// the body of a block: one or two nodes, now and then none at all (`{ %><% }`: a block that renders to "")
+func (g *c17G) block(e *c17Env) []*c17N {
+	if g.r.Chance(6) {
+		return nil
+	}
+	return g.body(e, g.r.Range(1, 2))
+}
+
 func (g *c17G) body(e *c17Env, size int) []*c17N {
 	var out []*c17N
 	for i := 0; i < size; i++ {
@@ -775,7 +886,7 @@ func (g *c17G) body(e *c17Env, size int) []*c17N {
 			n := &c17N{K: "if", S: g.cond(e.scope)}
 			sub := *e
 			sub.blocks++
-			n.A = g.body(&sub, g.r.Range(1, 2))
+			n.A = g.block(&sub)
 			if g.r.Chance(40) {
 				n.HasB = true
 				sub2 := *e
@@ -792,9 +903,15 @@ func (g *c17G) body(e *c17Env, size int) []*c17N {
 			sub.blocks++
 			sub.loops++
 			sub.scope = append(append([]string{}, e.scope...), v)
-			n.A = g.body(&sub, g.r.Range(1, 2))
+			n.A = g.block(&sub)
 			out = append(out, n)
+		case k >= 56 && k < 58 && e.level < 3 && g.nmap < 8:
+			out = append(out, g.letMap(e)...)
 		case k < 72 && e.level < 3:
+			if mv := g.pickMap(e); mv != "" && g.r.Chance(40) {
+				out = append(out, g.useMap(e, mv, false))
+				break
+			}
 			name := g.file(e.level+1, false, e.minC)
 			f := g.c.Files[name]
 			n := &c17N{K: "partial", S: name, Data: g.data(f.Params, e.scope)}
@@ -828,10 +945,14 @@ func (g *c17G) body(e *c17Env, size int) []*c17N {
 			if k := int(name[1] - '0'); k > sub.minC {
 				sub.minC = k
 			}
-			n.A = g.body(&sub, g.r.Range(1, 2))
+			n.A = g.block(&sub)
 			out = append(out, n)
 			e.defined = append(e.defined, name)
 		case k < 92 && e.minC < 4:
+			if mv := g.pickMap(e); mv != "" && g.r.Chance(25) {
+				out = append(out, g.useMap(e, mv, true))
+				break
+			}
 			name := "c" + strconv.Itoa(g.r.Range(e.minC+1, 4))
 			if len(e.defined) > 0 && g.r.Chance(70) {
 				if d := Pick(g.r, e.defined); int(d[1]-'0') > e.minC {
@@ -851,18 +972,23 @@ func (g *c17G) body(e *c17Env, size int) []*c17N {
 				sub := *e
 				sub.blocks++
 				sub.scope = append(append([]string{}, e.scope...), c17ContentParams[name]...)
-				n.A = g.body(&sub, g.r.Range(1, 2))
+				n.A = g.block(&sub)
 			}
 			out = append(out, n)
 		case !deep:
-			h := Pick(g.r, []string{"wrap", "wrap", "twice", "wrapTag", "wrapWith"})
+			h := Pick(g.r, []string{"wrap", "wrap", "twice", "wrapTag", "wrapWith", "wrapOpt"})
 			n := &c17N{K: "blk", S: h}
+			if h == "wrapOpt" && g.r.Chance(25) {
+				n.NoData = true // no block at all
+				out = append(out, n)
+				break
+			}
 			sub := *e
 			sub.blocks++
 			if h == "wrapWith" {
 				sub.scope = append(append([]string{}, e.scope...), "bw")
 			}
-			n.A = g.body(&sub, g.r.Range(1, 2))
+			n.A = g.block(&sub)
 			if h == "wrap" || h == "wrapTag" {
 				e.defined = append(e.defined, sub.defined[len(e.defined):]...)
 			}
@@ -927,12 +1053,13 @@ func c17Check(rep *Report, c *c17Case, shrink bool) {
 func init() {
 	oracles["C17"] = func(cfg Config) []*Report {
 		rep := NewReport("C17", "C17", cfg)
-		rep.Rule = "random composition trees: top template + partial/layout files (nesting to depth 3, files reused), bodies of text (HTML/JS-significant characters), output tags over globals/data/loop variables, if/else, for, partial(name[,data][,layout]) with names ending '', .html, .js, .plush.html, .md, .js.html, contentFor/contentOf over 4 names in any number and order (with/without data, with/without default block, defined before/after/never, inside if/for/partials/blocks/layouts), Go block helpers using Block() once/twice and BlockWith(child+data); x contentType unset/html/javascript; each tree is printed as REAL (plush helpers) and INLINE (body spliced literally, or rendered stand-alone with a fresh context = visible values + data and inserted unescaped; JSEscapeString applied exactly under the documented rule) and both are rendered by plush; non-trivial = contains at least one composition; distinct by tree; failing trees are shrunk and bucketed by outcome shape + remaining composition features"
+		rep.Rule = "random composition trees: top template + partial/layout files (nesting to depth 3, files reused), bodies of text (HTML/JS-significant characters), output tags over globals/data/loop variables, if/else, for, partial(name[,data][,layout]) with names ending '', .html, .js, .plush.html, .md, .js.html, data maps written as literals in the call or held as VALUES (`let m = {..[, layout]}` followed by 1-3+ uses as partial()/contentOf() data, also inside for / if / once- and twice-rendering block helpers and stored contentFor bodies; a Go-side map gd from the context, with or without a layout entry), contentFor/contentOf over 4 names in any number and order (with/without data, with/without default block, defined before/after/never, inside if/for/partials/blocks/layouts), Go block helpers using Block() once/twice, BlockWith(child+data) and HasBlock() (called with and without a block), block bodies of if/for/contentFor/contentOf-default/helpers empty (no statement at all) in ~6%; x contentType unset/html/javascript; each tree is printed as REAL (plush helpers) and INLINE (body spliced literally, or rendered stand-alone with a fresh context = visible values + data and inserted unescaped; JSEscapeString applied exactly under the documented rule) and both are rendered by plush; non-trivial = contains at least one composition; distinct by tree; failing trees are shrunk and bucketed by outcome shape + remaining composition features"
 		rep.Notes = append(rep.Notes,
 			"the JavaScript escaping rule of partial() (javascript content type and an extension other than .js/none) is treated as part of 'equals inline', as documented in partial_helper.go",
 			"when both the composition and the inline rendering fail (e.g. contentOf of an undefined name without default block) the messages are not compared",
 			"a contentFor body is rendered inline in the scope of its definition (values read at the time of contentOf) plus the data map; redefinition of a name uses the latest definition visible in scope",
-			"not generated: let/assignment inside bodies (scope leakage out of a partial is C07/C09 territory), silent tags with HTML values inside blocks (C02)")
+			"the only let statements generated bind a data map to a name that is unique in the case and is read only later in the same body or bodies nested in it; other let/assignment inside bodies is not generated (scope leakage out of a partial is C07/C09 territory), nor silent tags with HTML values inside blocks (C02)",
+			"a data map held in a variable (or passed in from Go) is the same value at every use: each use is compared with the inline rendering under the map's entries as written, so a composition that changes its caller's map shows at the next use")
 		if cfg.Arg != "" {
 			var c c17Case
 			if err := json.Unmarshal([]byte(cfg.Arg), &c); err != nil {
